@@ -94,7 +94,7 @@ type respScript struct {
 // exchangeStalled: an exchange that never terminated was seen in this process.
 var exchangeStalled atomic.Bool
 
-var faults = []string{"refused", "dial-error-without-address", "name-not-resolved", "close-before", "rst-before", "partial-head", "garbage-head", "invalid-status", "body-close", "body-rst", "never-answer", "client-cancel"}
+var faults = []string{"refused", "dial-error-without-address", "name-not-resolved", "close-before", "rst-before", "partial-head", "garbage-head", "invalid-status", "body-close", "body-rst", "never-answer", "client-cancel", "tls-handshake-stall"}
 
 func genResp(t *rapid.T) *respScript {
 	s := &respScript{}
@@ -188,7 +188,7 @@ func (s *respScript) steps() []sim.Step {
 		return []sim.Step{{Write: []byte("\x00\x01garbage no http here\r\n\r\n")}, {Close: true}}
 	case "invalid-status": // a status line net/http's client accepts but no server can relay
 		return []sim.Step{{Write: []byte(fmt.Sprintf("HTTP/1.1 %03d Odd\r\nContent-Length: 2\r\n\r\nno", s.status%100))}, {Close: true}}
-	case "never-answer", "client-cancel":
+	case "never-answer", "client-cancel", "tls-handshake-stall":
 		return []sim.Step{{Hold: true}, {Close: true}}
 	}
 	var out []sim.Step
@@ -303,6 +303,9 @@ func exchange(fatalf func(string, ...any), s *respScript, method string) {
 	if s.fault == "never-answer" {
 		tr.ResponseHeaderTimeout = 60 * time.Millisecond
 	}
+	if s.fault == "tls-handshake-stall" { // an https backend that accepts the connection and never completes the handshake
+		tr.TLSHandshakeTimeout = 60 * time.Millisecond
+	}
 	switch s.fault { // the backend cannot be reached, and the error names no peer address
 	case "dial-error-without-address":
 		tr.DialContext = func(context.Context, string, string) (net.Conn, error) {
@@ -337,6 +340,9 @@ func exchange(fatalf func(string, ...any), s *respScript, method string) {
 		req.RequestURI = "127.0.0.1:8443"
 	}
 	backendURL := "http://" + addr
+	if s.fault == "tls-handshake-stall" {
+		backendURL = "https://" + addr
+	}
 	listenerURL := backendURL
 	if s.retarget {
 		target, _ := url.Parse(backendURL)
@@ -480,6 +486,10 @@ func exchange(fatalf func(string, ...any), s *respScript, method string) {
 	case "refused", "close-before", "rst-before", "dial-error-without-address", "name-not-resolved":
 		if rec.Status() != http.StatusBadGateway {
 			bad("backend unreachable / failed before responding: client got %d, want 502", rec.Status())
+		}
+	case "tls-handshake-stall":
+		if rec.Status() != http.StatusGatewayTimeout && rec.Status() != http.StatusBadGateway {
+			bad("the backend never completed the TLS handshake (timed out before responding): client got %d, want 504 or 502", rec.Status())
 		}
 	case "never-answer":
 		if rec.Status() != http.StatusGatewayTimeout {
